@@ -1660,5 +1660,40 @@ pub fn glue() -> Vec<String> {
     out.push(format!("try_unwrap: {:?}", Rc::try_unwrap(Rc::new(5u8)).ok()));
     let pinned = Rc::pin(9u32);
     out.push(format!("pin: {}", *pinned));
+    // layouts: the value sits behind two counters (and, in cactusref, a link table); sizes and
+    // alignments other than 8 exercise the offset computations of from_box / into_raw / from_raw
+    macro_rules! layout {
+        ($t:ty, $v:expr, $name:expr) => {{
+            let v: $t = $v;
+            let a: Rc<$t> = Rc::new(v.clone());
+            let b: Rc<$t> = Rc::from(Box::new(v.clone()));
+            let c: Rc<$t> = Rc::from(v.clone());
+            let p = Rc::into_raw(a);
+            let aligned = (p as usize) % std::mem::align_of::<$t>() == 0;
+            let a = unsafe { Rc::from_raw(p) };
+            let w = Rc::downgrade(&b);
+            let wp = w.as_ptr();
+            let wr = w.into_raw();
+            let w = unsafe { Weak::from_raw(wr) };
+            out.push(format!("layout {}: {} {} {} {} {} {} {} {}", $name, *a == v, *b == v, *c == v, aligned,
+                wp == Rc::as_ptr(&b), wr == Rc::as_ptr(&b), w.upgrade().map(|x| *x == v).unwrap_or(false),
+                Rc::strong_count(&b)));
+            let mut m = b.clone();
+            *Rc::make_mut(&mut m) = v.clone();
+            out.push(format!("layout {} make_mut: {} {} {}", $name, *m == v, Rc::ptr_eq(&m, &b), Rc::strong_count(&b)));
+            out.push(format!("layout {} unwrap: {}", $name, Rc::try_unwrap(c).ok().map(|x| x == v).unwrap_or(false)));
+        }};
+    }
+    layout!(u8, 0xA5u8, "u8");
+    layout!(u16, 0xBEEFu16, "u16");
+    layout!(u128, 0x0123_4567_89AB_CDEF_0011_2233_4455_6677u128, "u128");
+    layout!((), (), "unit");
+    layout!([u8; 37], [7u8; 37], "bytes37");
+    layout!(String, String::from("payload"), "string");
+    layout!((u8, u64, u8), (1u8, 2u64, 3u8), "tuple");
+    #[derive(Clone, PartialEq, Debug)]
+    #[repr(align(64))]
+    struct Big(u8);
+    layout!(Big, Big(9), "align64");
     out
 }
